@@ -625,6 +625,13 @@ func genUedCase(g *Gen) Case {
 		if g.Chance(2, 5) {
 			op = "remove"
 		}
+		if g.Chance(1, 5) {
+			// strings no atom parser accepts: refused, and the set must be as before — also
+			// when the same string comes again or a valid atom follows
+			bad := []string{"not an atom", ">=app-a/qux", "app-a/", "=dev-b/bar", "/foo", "app-a/foo[", "!!"}
+			steps = append(steps, dnode{"op": op, "s": bad[g.Intn(len(bad))], "invalid": true})
+			continue
+		}
 		steps = append(steps, dnode{"op": op, "s": pool[g.Intn(len(pool))]})
 	}
 	return Case{"op": "c05.ued", "steps": steps}
